@@ -244,14 +244,17 @@ class Concat(Expr):
             ):
                 return
 
+            # When stacking rows (axis=0) a frame that contributes none of the
+            # selected columns still contributes its rows
             frames = [
                 (
                     frame[cols]
-                    if sorted(cols) != sorted(get_columns_or_name(frame))
+                    if frame.ndim == 2
+                    and sorted(cols) != sorted(get_columns_or_name(frame))
                     else frame
                 )
                 for frame, cols in zip(self._frames, columns_frame)
-                if len(cols) > 0
+                if len(cols) > 0 or self.axis == 0
             ]
             result = type(self)(
                 self.join,
